@@ -149,11 +149,11 @@ U.fn(CTX, 'IndexCtx::current_file_id', requires=[C('self.file_trace@.len() > 0',
 U.fn(CTX, 'IndexCtx::push_file',
      ensures=[C('ret == !old(self).indexed_files@.contains(file_id)', 'C16', name='a file is entered only if it has not been indexed before'),
               C('final(self).indexed_files@ =~= old(self).indexed_files@.insert(file_id)', 'C16', name='an entered file is remembered'),
-              C('ret ==> final(self).file_trace@ =~= old(self).file_trace@.push(file_id)', 'C05'),
-              C('!ret ==> final(self).file_trace@ =~= old(self).file_trace@', 'C05'), 'final(self).scopes == old(self).scopes'],
+              C('ret ==> final(self).file_trace@ =~= old(self).file_trace@.push(file_id)', 'C05 C17', name='an entered file goes on top of the include stack'),
+              C('!ret ==> final(self).file_trace@ =~= old(self).file_trace@', 'C05 C17', name='a file that is not entered leaves the include stack alone'), 'final(self).scopes == old(self).scopes'],
      prologue='broadcast use {ax_fileid_key_model, axiom_random_state_builds_valid_hashers};')
 U.fn(CTX, 'IndexCtx::pop_file', requires=[C('old(self).file_trace@.len() > 0', 'C03', name='pop_file() on an empty file stack panics')],
-     ensures=[C('final(self).file_trace@ =~= old(self).file_trace@.drop_last()', 'C05'), 'final(self).scopes == old(self).scopes',
+     ensures=[C('final(self).file_trace@ =~= old(self).file_trace@.drop_last()', 'C05 C17', name='leaving a file removes exactly the top of the include stack'), 'final(self).scopes == old(self).scopes',
               'final(self).indexed_files == old(self).indexed_files'])
 U.fn(CTX, 'IndexCtx::resolve_id', tags='C05', prologue='proof { ax_into_sym(); }',
      ensures=[C('ret == resolve_spec(self.scopes.all(), &self.symbol_map, *name)', 'C05', name='a name resolves to the innermost local declaration; the globals - defs, then completed defsets - are consulted last')])
@@ -174,6 +174,7 @@ U.insert_in(I, 'trait', 'Indexable', '''
 U.fn(I, 'Indexable::index',
      requires=[C('cwf(old(ctx))', 'C03 C05'), C('self.pre(old(ctx))', 'C03', name='the construct is indexed inside the scope it needs')],
      ensures=[C('cwf(final(ctx))', 'C03 C05'), C('restored(final(ctx), old(ctx))', 'C05', name='scope stack and file stack restored on every exit'),
+              C('final(ctx).file_trace@ =~= old(ctx).file_trace@', 'C17', name='the include stack is restored on every exit: the file on top is the file whose tree is being indexed, so ranges stay paired with their own file'),
               C('old(ctx).indexed_files@.subset_of(final(ctx).indexed_files@)', 'C16', name='the set of indexed files only grows (so a file is entered at most once)')])
 
 REC = 'has_record(ctx)'
